@@ -68,7 +68,7 @@ func SelfTest(dir string) error {
 		{".", "root", "mtime", func(r *Node) { r.Nsec++ }},
 		{".", "root", "xattrs", func(r *Node) { r.Xattrs = nil }},
 		{"d", "dir", "mode-perm", func(r *Node) { r.Kids[2].Perm ^= 1 }},
-		{"d", "dir", "mtime-pre1970", func(r *Node) { r.Kids[2].Sec = 5 }},
+		{"d", "dir", "mtime", func(r *Node) { r.Kids[2].Sec = 5 }},
 		{"d", "dir", "xattrs", func(r *Node) { r.Kids[2].Xattrs[1].Val = []byte{0, 1} }},
 		{"d", "dir", "gid", func(r *Node) { r.Kids[2].GID++ }},
 		{"d/f\xff g", "file", "content", func(r *Node) { r.Kids[2].Kids[0].Data = r.Kids[2].Kids[0].Data[:4999] }},
